@@ -136,7 +136,7 @@ theorem prV3Connack_sl (c : C) (parsed) (h : SL K c.s.store) : SL K (prV3Connack
   · split
     · rename_i p
       by_cases h1 : p.rc = some 0 <;> by_cases h2 : p.sp = true <;> simp [h1, h2, h]
-      exact sendStored_sl _ (by simpa using h)
+      exact resendStored_sl _ (by simpa using h)
     · simpa using h
 
 theorem prV5Connack_sl (c : C) (parsed) (h : SL K c.s.store) : SL K (prV5Connack c parsed).s.store := by
@@ -147,7 +147,7 @@ theorem prV5Connack_sl (c : C) (parsed) (h : SL K c.s.store) : SL K (prV5Connack
     · rename_i p
       have hf := propsFold_sl (K := K) connackRecvProp_sl
       by_cases h1 : p.rc = some 0 <;> by_cases h2 : p.sp = true <;> simp [h1, h2, h]
-      exact sendStored_sl _ (hf _ _ (by simpa using h))
+      exact resendStored_sl _ (hf _ _ (by simpa using h))
     · simpa using h
 
 theorem prPuback_sl (c : C) (parsed) (h : SL K c.s.store) : SL K (prPuback c parsed).s.store := by
